@@ -31,6 +31,9 @@ class RemoveFutureImports(SimpleCodemod):
     def leave_ImportFrom(
         self, original_node: cst.ImportFrom, updated_node: cst.ImportFrom
     ):
+        if not self.node_is_selected(original_node):
+            return updated_node
+
         match original_node.module:
             case cst.Name(value="__future__"):
                 match original_node.names:
